@@ -254,7 +254,7 @@ func main() {
 		return ok, d
 	})
 	r.MaybeReplay()
-	n := r.Pick(12, 16)
+	n := r.Pick(12, 13)
 	u := universe(n)
 	pats := patterns()
 	var allQ [][]*bqlm.Query
